@@ -37,6 +37,7 @@ def main():
     ap.add_argument("prop")
     ap.add_argument("--tier", default=os.environ.get("VERIF_TIER", "quick"), choices=["quick", "thorough"])
     ap.add_argument("--replay")
+    ap.add_argument("--record-history", nargs=2, metavar=("JOB", "OUT"), help="internal: re-explore one instance and record one model per path")
     ap.add_argument("--procs", type=int, default=None)
     a = ap.parse_args()
     seed = int(os.environ.get("VERIF_SEED", "0") or 0)
@@ -44,6 +45,8 @@ def main():
 
     if a.replay:
         sys.exit(runner.replay_file(a.replay))
+    if a.record_history:
+        sys.exit(runner.record_history(a.prop.upper(), *a.record_history))
     sys.exit(runner.run_property(a.prop.upper(), a.tier, seed, a.procs))
 
 
